@@ -19,18 +19,16 @@ theorem setValMap_val (sid v τ) : (setValMap sid v τ).val = if τ.sid = sid th
 theorem setSheetMap_sheet (sid sh τ) : (setSheetMap sid sh τ).sheet = if τ.sid = sid then sh else τ.sheet := by
   unfold setSheetMap; split <;> rfl
 
-/-- the elementary changes of (specs, nextSid).  `strict` adds to the sheet setter the condition
-that creation enforces (no sheet-less spec next to another one). -/
-inductive STrans (strict : Bool) : List Spec × Nat → List Spec × Nat → Prop
-  | refl (p) : STrans strict p p
-  | del (l n sid) : STrans strict (l, n) (l.filter (fun τ => τ.sid ≠ sid), n)
-  | setVal (l n sid v) : STrans strict (l, n) (l.map (setValMap sid v), n)
+/-- the elementary changes of (specs, nextSid) -/
+inductive STrans : List Spec × Nat → List Spec × Nat → Prop
+  | refl (p) : STrans p p
+  | del (l n sid) : STrans (l, n) (l.filter (fun τ => τ.sid ≠ sid), n)
+  | setVal (l n sid v) : STrans (l, n) (l.map (setValMap sid v), n)
   | add (l n m path csv sheet data) (h : canAdd (ioSpecs l m path) sheet = true) :
-      STrans strict (l, n) (insertSpec l ⟨n, m, path, ftOf l m path csv, sheet, data⟩, n + 1)
-  | setSheet (l n) (σ : Spec) (sh : Option String) (hσ : σ ∈ l) (h : sheetFree l σ sh = true)
-      (hs : strict = true → sh = none → ∀ c ∈ ioSpecs l σ.group σ.path, c.sid = σ.sid) :
-      STrans strict (l, n) (l.map (setSheetMap σ.sid sh), n)
-  | trans {a b c} : STrans strict a b → STrans strict b c → STrans strict a c
+      STrans (l, n) (insertSpec l ⟨n, m, path, ftOf l m path csv, sheet, data⟩, n + 1)
+  | setSheet (l n) (σ : Spec) (sh : Option String) (hσ : σ ∈ l) (h : sheetFree l σ sh = true) :
+      STrans (l, n) (l.map (setSheetMap σ.sid sh), n)
+  | trans {a b c} : STrans a b → STrans b c → STrans a c
 
 structure SidOK (p : List Spec × Nat) : Prop where
   sidLt : ∀ σ ∈ p.1, σ.sid < p.2
@@ -41,7 +39,7 @@ def Loc (l : List Spec) : Prop :=
   ∀ σ ∈ l, ∀ τ ∈ l, σ.group = τ.group → σ.path = τ.path → σ ≠ τ →
     σ.csv = false ∧ σ.sheet ≠ none ∧ τ.sheet ≠ none ∧ σ.sheet ≠ τ.sheet
 
-theorem sidOK_strans {strict : Bool} {a b : List Spec × Nat} (t : STrans strict a b) (h : SidOK a) :
+theorem sidOK_strans {a b : List Spec × Nat} (t : STrans a b) (h : SidOK a) :
     SidOK b := by
   induction t with
   | refl p => exact h
@@ -75,7 +73,7 @@ theorem sidOK_strans {strict : Bool} {a b : List Spec × Nat} (t : STrans strict
       · have := h.sidLt τ hτ; simp only at this he; omega
       · have := h.sidLt σ hσ; simp only at this he; omega
       · exact h.sidUnique σ hσ τ hτ he
-  | setSheet l n σ0 sh hσ0 hf hs =>
+  | setSheet l n σ0 sh hσ0 hf =>
     refine ⟨?_, ?_⟩
     · intro σ hσ
       simp only [List.mem_map] at hσ
@@ -107,7 +105,7 @@ theorem ftOf_false_of_mem {l : List Spec} {m : Nat} {path : String} {sheet : Opt
     exact (ioSpecs_csv_of_canAdd hc (by rw [heq]; simp)).1
   · rename_i heq; rw [heq] at hm; simp at hm
 
-theorem loc_strans {a b : List Spec × Nat} (t : STrans true a b) (hs : SidOK a) (h : Loc a.1) :
+theorem loc_strans {a b : List Spec × Nat} (t : STrans a b) (hs : SidOK a) (h : Loc a.1) :
     Loc b.1 := by
   induction t with
   | refl p => exact h
@@ -137,7 +135,7 @@ theorem loc_strans {a b : List Spec × Nat} (t : STrans true a b) (hs : SidOK a)
       obtain ⟨h1, h2, h3, h4⟩ := ioSpecs_csv_of_canAdd hc hm
       exact ⟨h1, h2, h3, h4⟩
     · exact h σ hσ τ hτ hg hp hne
-  | setSheet l n σ0 sh hσ0 hf hstrict =>
+  | setSheet l n σ0 sh hσ0 hf =>
     intro σ hσ τ hτ hg hp hne
     simp only [List.mem_map] at hσ hτ
     obtain ⟨σ1, h0, rfl⟩ := hσ
@@ -154,19 +152,19 @@ theorem loc_strans {a b : List Spec × Nat} (t : STrans true a b) (hs : SidOK a)
       have hτm : τ1 ∈ ioSpecs l σ0.group σ0.path :=
         mem_ioSpecs.mpr ⟨h1, by rw [← e1, hg0], by rw [← e1, hp0]⟩
       have hfree := hf τ1 hτm
-      simp only [hs2, decide_false, Bool.false_or, bne_iff_ne] at hfree
-      have hsh : sh ≠ none := fun e => hs2 (hstrict rfl e τ1 hτm)
+      simp only [hs2, decide_false, Bool.false_or, Bool.and_eq_true, Option.isSome_iff_ne_none,
+        bne_iff_ne] at hfree
       simp only [setSheetMap_csv, setSheetMap_sheet, hs1, hs2, if_true, if_false]
-      exact ⟨k1, hsh, k3, fun e => hfree e.symm⟩
+      exact ⟨k1, hfree.1.1, k3, fun e => hfree.2 e.symm⟩
     · by_cases hs2 : τ1.sid = σ0.sid
       · have e1 : τ1 = σ0 := hs.sidUnique τ1 h1 σ0 hσ0 hs2
         have hσm : σ1 ∈ ioSpecs l σ0.group σ0.path :=
           mem_ioSpecs.mpr ⟨h0, by rw [← e1, hg0], by rw [← e1, hp0]⟩
         have hfree := hf σ1 hσm
-        simp only [hs1, decide_false, Bool.false_or, bne_iff_ne] at hfree
-        have hsh : sh ≠ none := fun e => hs1 (hstrict rfl e σ1 hσm)
+        simp only [hs1, decide_false, Bool.false_or, Bool.and_eq_true, Option.isSome_iff_ne_none,
+          bne_iff_ne] at hfree
         simp only [setSheetMap_csv, setSheetMap_sheet, hs1, hs2, if_true, if_false]
-        exact ⟨k1, k2, hsh, hfree⟩
+        exact ⟨k1, k2, hfree.1.1, hfree.2⟩
       · simp only [setSheetMap_csv, setSheetMap_sheet, hs1, hs2, if_false]
         exact ⟨k1, k2, k3, k4⟩
   | trans t1 _ ih1 ih2 => exact ih2 (sidOK_strans t1 hs) (ih1 hs h)
